@@ -721,6 +721,19 @@ def run(scn: Dict[str, Any]) -> List[Dict[str, Any]]:
                     env.rec("cb_e", m=m, s="ok")
 
         finish = asyncio.Event()
+        if cfg.get("bystander"):
+            # another worker in the same process (its own broker and Receiver) with a task that never ends: none of this
+            # worker's business - its shutdown neither waits for it nor is held up by it
+            by_env = Env(loop, cfg)
+            bb = ScriptedBroker(by_env)
+
+            async def forever() -> None:
+                await loop.create_future()
+            bb.register_task(forever, task_name="forever")
+            bb.msgs = [bb.formatter.dumps(TaskiqMessage(task_id="by", task_name="forever", labels={}, args=[], kwargs={})).message]
+            bb.arrived = 1
+            loop.create_task(Receiver(bb, executor=InlineExecutor(), max_async_tasks=2, run_startup=False).listen(asyncio.Event()))
+            loop.settle()
         if cfg.get("via") == "api":
             # the programmatic entry point taskiq.api.run_receiver_task builds the Receiver from its own arguments
             from taskiq.api import run_receiver_task
